@@ -46,7 +46,7 @@ theorem C08_tie_guard_order_signers :
 
 theorem C08_tie_guard_order_partial :
     Gen.calls_val_validatePartialSignatureMessage =
-      ["validPartialSigMsgType", "partialSignatureTypeMatchesRole", "validatePartialMessages", "consensusState",
+      ["validPartialSigMsgType", "partialSignatureTypeMatchesRole", "earlyMessage", "validatePartialMessages", "consensusState",
        "GetSignerState", "validateSignerBehaviorPartial", "validateSignatureFormat", "signatureVerifier",
        "CreateSignerState", "ResetSlot", "RecordPartialSignatureMessage"] ∧
     Gen.calls_val_validatePartialMessages = ["commonSignerValidation", "commonSignerValidation", "validateSignatureFormat"] ∧
